@@ -58,6 +58,21 @@ def arithmetic_family(w, seed, spec):
                 r, e = _try(f)
                 if not isinstance(e, ValueError):
                     fails.append(f'{sym} for {na}: non-scalar factor not rejected with ValueError')
+        # scalars of another kind than the operator's dtype: integer-valued operators with real factors
+        if isinstance(s, type(K.S((1,)))) and s.ndim == 1:
+            from furax._base.diagonal import DiagonalOperator
+            si = K.S(s.shape, jnp.int32)
+            Di = DiagonalOperator(jnp.arange(1, s.shape[0] + 1, dtype=jnp.int32), in_structure=si)
+            xi = jnp.arange(1, s.shape[0] + 1, dtype=jnp.int32)
+            ref = np.arange(1, s.shape[0] + 1) ** 2
+            for sym, f, want in (('2.5*Di', lambda: 2.5 * Di, 2.5 * ref), ('Di*0.5', lambda: Di * 0.5, 0.5 * ref),
+                                 ('0.25*(Di@Di)', lambda: 0.25 * (Di @ Di), 0.25 * ref * np.arange(1, s.shape[0] + 1)),
+                                 ('Di/4', lambda: Di / 4, ref / 4), ('-Di', lambda: -Di, -ref)):
+                r, e = _try(lambda: np.asarray(f()(xi), dtype=np.float64))
+                if e is not None:
+                    fails.append(f'{sym} on an int32 operator raised {type(e).__name__}')
+                elif not K.close(r, want):
+                    fails.append(f'{sym} on an int32 operator: got {r}, expected {want}')
         # mismatching structures are rejected
         other = g.square_atoms(K.S((5,)))
         for (na, a), (nb, b) in itertools.product(ops[:4], other[:3]):
